@@ -284,9 +284,9 @@ func init() {
 		Simulated:   []string{"abort instant (per-instruction hook, synchronous)", "host functions and their failures", "child-VM sync.Pool policy"},
 		Runs: func(tier string) int {
 			if tier == "thorough" {
-				return 200000
+				return 2000000
 			}
-			return 3000
+			return 40000
 		},
 		WallCap: func(tier string) float64 {
 			if tier == "thorough" {
